@@ -46,6 +46,9 @@ type c14Rule struct {
 type c14Cases struct {
 	Seed   int64               `json:"seed"`
 	Events map[string][]string `json:"events"`
+	// sets whose events are decoded from their JSON text again before every evaluation series (string nodes
+	// start escaped; field ops unescape them in place); their rules get a processor of their own
+	Fresh []string `json:"fresh"`
 }
 
 type c14Cond struct {
@@ -164,7 +167,17 @@ func c14Build(r *c14Rule, ext map[int]*c14Extract) (info *ActionPluginStaticInfo
 	return info, nil
 }
 
-func c14RunChunk(rules []*c14Rule, ext map[int]*c14Extract, roots []*insaneJSON.Root, evs []string, rng *rand.Rand, emit func(*c14Out)) {
+func c14RunChunk(rules []*c14Rule, ext map[int]*c14Extract, roots []*insaneJSON.Root, evs []string, fresh bool, rng *rand.Rand, emit func(*c14Out)) {
+	redecode := func() {
+		if !fresh {
+			return
+		}
+		for i, e := range evs {
+			if err := roots[i].DecodeString(e); err != nil {
+				panic("harness: " + err.Error())
+			}
+		}
+	}
 	p := newProcessor(0, nil, atomic.NewInt32(0), nil, nil, func(*Event, bool, bool) {}, func(...string) {}, func() {})
 	cur, phase, mode := 0, 0, 0
 	n := len(roots)
@@ -207,6 +220,7 @@ func c14RunChunk(rules []*c14Rule, ext map[int]*c14Extract, roots []*insaneJSON.
 				chainErr = fmt.Sprintf("panic in doActions at event %d: %v", cur, pv)
 			}
 		}()
+		redecode()
 		for i, ev := range events {
 			cur = i
 			ev.action = 0
@@ -225,6 +239,7 @@ func c14RunChunk(rules []*c14Rule, ext map[int]*c14Extract, roots []*insaneJSON.
 				}
 			}()
 			phase = 1
+			redecode()
 			perm3 := rng.Perm(n)
 			send := func(ev *Event, slot, m int) {
 				cur, mode = slot, m
@@ -309,6 +324,7 @@ func c14RunChunk(rules []*c14Rule, ext map[int]*c14Extract, roots []*insaneJSON.
 					out.Err = fmt.Sprintf("panic in isMatch: %v", pv)
 				}
 			}()
+			redecode()
 			for _, i := range perm {
 				r2[i] = p.isMatch(k, events[i])
 			}
@@ -386,10 +402,14 @@ func TestVerifC14(t *testing.T) {
 	rng := rand.New(rand.NewSource(cs.Seed + 1))
 	sc := bufio.NewScanner(f)
 	sc.Buffer(make([]byte, 1<<20), 1<<24)
+	isFresh := map[string]bool{}
+	for _, k := range cs.Fresh {
+		isFresh[k] = true
+	}
 	var chunk []*c14Rule
 	flush := func() {
 		if len(chunk) > 0 {
-			c14RunChunk(chunk, ext, roots[chunk[0].Set], cs.Events[chunk[0].Set], rng, emit)
+			c14RunChunk(chunk, ext, roots[chunk[0].Set], cs.Events[chunk[0].Set], isFresh[chunk[0].Set], rng, emit)
 			chunk = chunk[:0]
 		}
 	}
@@ -401,7 +421,7 @@ func TestVerifC14(t *testing.T) {
 		if _, ok := roots[r.Set]; !ok {
 			t.Fatalf("unknown event set %q", r.Set)
 		}
-		if len(chunk) > 0 && (chunk[0].Set != r.Set || len(chunk) >= c14Chunk) {
+		if len(chunk) > 0 && (chunk[0].Set != r.Set || len(chunk) >= c14Chunk || isFresh[chunk[0].Set]) {
 			flush()
 		}
 		chunk = append(chunk, r)
